@@ -238,7 +238,14 @@ func (hc *histClient) hello2(kind string, a int, useReal bool) (rec []byte, real
 
 func hrrRecord(rng uint64) []byte {
 	r := core.NewRand(rng, "hrr")
-	return echbox.ServerHello(echbox.HRRRandom, core.Bytes(r, 32), 0x1301, []echbox.Ext{{Type: 43, Data: []byte{3, 4}}, {Type: 51, Data: []byte{0, 23}}})
+	exts := []echbox.Ext{{Type: 43, Data: []byte{3, 4}}, {Type: 51, Data: []byte{0, 23}}}
+	sid := core.Bytes(r, 32)
+	if rng%3 == 1 {
+		// a backend that keeps no state between the hellos: its request carries a cookie
+		ck := core.Bytes(r, 1+r.IntN(80))
+		exts = append(exts, echbox.Ext{Type: 44, Data: append([]byte{byte(len(ck) >> 8), byte(len(ck))}, ck...)})
+	}
+	return echbox.ServerHello(echbox.HRRRandom, sid, 0x1301, exts)
 }
 
 func shRecord(rng uint64, n int) []byte {
@@ -257,7 +264,7 @@ func plainRecord(rng uint64, kind string, n int) []byte {
 		return echbox.Record(21, 0x0303, []byte{byte(1 + r.IntN(2)), []byte{0, 10, 40, 47, 50, 70, 80, 109, 112, 120}[r.IntN(10)]})
 	case "hs-other":
 		body := core.Bytes(r, 1+r.IntN(60))
-		return echbox.Record(22, 0x0303, echbox.Handshake([]byte{4, 8, 11, 13, 15, 20, 24}[r.IntN(7)], body))
+		return echbox.Record(22, 0x0303, echbox.Handshake([]byte{4, 8, 11, 13, 15, 20, 24, 0xff, 0xfe, 0, 5, 0xff}[r.IntN(12)], body))
 	case "appdata":
 		return echbox.Record(23, 0x0303, core.Bytes(r, 1+r.IntN(300)))
 	}
@@ -1008,6 +1015,19 @@ func genC06(seed uint64, idx int) *Plan {
 		base.Keys = append(base.Keys, base.Target)
 	}
 	h := &HistoryPlan{Base: *base, Concurrent: r.IntN(3) == 0}
+	if idx%16 == 11 {
+		// a long row of records a peer must ignore between the retry request and
+		// the second hello (however many: the hello that follows is still the
+		// retried one)
+		h.Concurrent = false
+		h.Steps = []HStep{{Side: "b", Kind: "hrr"}}
+		for i := 15 + r.IntN(30); i > 0; i-- {
+			h.Steps = append(h.Steps, HStep{Side: "c", Kind: "ccs"})
+		}
+		a := r.IntN(1 << 20)
+		h.Steps = append(h.Steps, HStep{Side: "c", Kind: cKinds[r.IntN(len(cKinds))], A: a, RealCtx: a%2 == 0}, HStep{Side: "c", Kind: "appdata", A: a})
+		return &Plan{Kind: "history", Seed: seed, History: h}
+	}
 	n := 1 + r.IntN(12)
 	// bias: most histories contain the HRR / second hello pair somewhere
 	for i := 0; i < n; i++ {
